@@ -5,6 +5,7 @@ import (
 	"sort"
 	"testing"
 	"time"
+	"verifharness/internal/hook"
 
 	"pgregory.net/rapid"
 	"verifharness/internal/et"
@@ -14,13 +15,14 @@ import (
 )
 
 type Case struct {
-	SizeMs  int64      `json:"size_ms"`
-	SlideMs int64      `json:"slide_ms"`
-	OOOMs   int64      `json:"ooo_ms"`
-	Groups  int        `json:"groups"`
-	TsKind  string     `json:"ts_kind"`
-	Events  []et.Event `json:"events"`
-	Pauses  []int      `json:"pauses"`
+	SizeMs   int64      `json:"size_ms"`
+	SlideMs  int64      `json:"slide_ms"`
+	OOOMs    int64      `json:"ooo_ms"`
+	Groups   int        `json:"groups"`
+	TsKind   string     `json:"ts_kind"`
+	Events   []et.Event `json:"events"`
+	Pauses   []int      `json:"pauses"`
+	HookSeed uint64     `json:"hook_seed,omitempty"` // seed of the engine's build-tag-guarded perturbation points (0 = off)
 }
 
 var pairs = [][2]int64{{3000, 1000}, {3000, 2000}, {5000, 2000}, {2000, 2000}, {2000, 5000}, {10000, 3000}, {1000, 250}, {60000, 20000}, {4000, 1000}, {1500, 500}}
@@ -36,6 +38,7 @@ func genCase(t *rapid.T) Case {
 		scale = c.SizeMs
 	}
 	c.Events = et.GenTimeline(t, et.TLParams{SizeMs: scale, OOOMs: c.OOOMs, UnitMs: 1, Groups: c.Groups, MaxN: 30, PreFirst: true})
+	c.HookSeed = hookSeed(t)
 	for range c.Events {
 		c.Pauses = append(c.Pauses, gen.Pause().Draw(t, "pause"))
 	}
@@ -54,6 +57,13 @@ func sqlOf(c Case) string {
 func floorTo(x, m int64) int64 { return x / m * m }
 
 func runCase(c Case) (res pbt.Result) {
+	hook.Configure(c.HookSeed)
+	defer func() {
+		for site, n := range hook.Sites() {
+			res.Count("hook:"+site, n)
+		}
+		hook.Configure(0)
+	}()
 	in, err := run.Open(sqlOf(c))
 	if err != nil {
 		res.Add(pbt.D("execute-error", "%v for %s", err, sqlOf(c)))
@@ -285,13 +295,21 @@ func runCase(c Case) (res pbt.Result) {
 }
 
 var spec = pbt.Spec[Case]{
-	ID:   "C08",
-	Rule: "generated: event-time sliding windows over a table of (size,slide) pairs (slide dividing size or not, = size, > size), MAXOUTOFORDERNESS 0..2*size, 0-3 groups, 1-30 events from a jittered model clock, producer pauses, flush row. oracle: slide-aligned intervals of length size not before the aligned start of the earliest accepted event; every (group, interval) holding an accepted event and ended before the final watermark delivered exactly once, in increasing start order; ids of a delivered interval = all on-time rows inside it (+ optionally late rows, monotone once present); count/sum/window_id; no early firing. non-trivial = >=3 intervals and (an event covered by >=2 delivered intervals or an out-of-order row); distinct by case hash",
+	ID:          "C08",
+	Rule:        "generated: event-time sliding windows over a table of (size,slide) pairs (slide dividing size or not, = size, > size), MAXOUTOFORDERNESS 0..2*size, 0-3 groups, 1-30 events from a jittered model clock, producer pauses, flush row. oracle: slide-aligned intervals of length size not before the aligned start of the earliest accepted event; every (group, interval) holding an accepted event and ended before the final watermark delivered exactly once, in increasing start order; ids of a delivered interval = all on-time rows inside it (+ optionally late rows, monotone once present); count/sum/window_id; no early firing. non-trivial = >=3 intervals and (an event covered by >=2 delivered intervals or an out-of-order row); distinct by case hash",
 	Assumptions: []string{"input never dropped (block strategy)", "rows late on arrival may be counted or not, but once counted stay counted in later covering intervals"},
-	Gen:  genCase,
-	Run:  runCase,
+	Gen:         genCase,
+	Run:         runCase,
 }
 
 func TestProp(t *testing.T)    { pbt.RunProp(t, spec) }
 func TestReplay(t *testing.T)  { pbt.RunReplay(t, spec) }
 func TestWitness(t *testing.T) { pbt.RunWitnesses(t, spec) }
+
+// hookSeed: two cases in three run with schedule perturbation at the engine's verif-tagged points.
+func hookSeed(t *rapid.T) uint64 {
+	if rapid.IntRange(0, 2).Draw(t, "hookon") == 0 {
+		return 0
+	}
+	return uint64(rapid.IntRange(1, 1<<30).Draw(t, "hookseed"))
+}
